@@ -662,8 +662,14 @@ def run_check(check_name: str, tier: str, verif_seed: int, budget_s: float | Non
             print(f"TRIAGE n={v['n']:5d} idx={v['run_index']} {k}")
     known = load_known()
     known_by_id = {row["id"]: row for row in known}
-    for kid in sorted(tot["known_hit"]):
-        print(known_by_id[kid]["line"])
+    for row in known:
+        # one line per listed finding of this property; say so when this run did not happen to reach it
+        props = row.get("property")
+        props = props if isinstance(props, list) else [props]
+        if row.get("status") != "known" or prop not in props:
+            continue
+        n = tot["known_hit"].get(row["id"], 0)
+        print(row["line"] + (f" [hit {n}x in this run]" if n else " [listed; not reached by this run's samples]"))
     exit_code = 0
     replay_path = None
     if violations:
